@@ -101,7 +101,12 @@ fn blocks_for(tier: Tier) -> Vec<Block> {
     };
     let maxd = plan.iter().map(|p| p.0).max().unwrap();
     for (devs, spec) in dev_configs(maxd) {
-        let l = plan.iter().find(|p| p.0 == devs.len()).map(|p| p.1).unwrap_or(2);
+        let mut l = plan.iter().find(|p| p.0 == devs.len()).map(|p| p.1).unwrap_or(2);
+        // quick tier: pairs of (a command-level setting, a deviation of the subcommand) get one
+        // token more — dispatch into a subcommand while something is pending needs three tokens
+        if tier == Tier::Quick && devs.len() == 2 && devs.iter().any(|d| d.starts_with("sub_") || d.starts_with("second_sub")) && !spec.settings.is_empty() {
+            l = 3;
+        }
         out.push(Block { devs, spec, max_len: l });
     }
     out.extend(requirement_blocks(match tier { Tier::Quick => 2, Tier::Thorough => 3 }));
